@@ -153,4 +153,14 @@ def query_shapes(rng, lanelets, G):
     cx = float(rng.uniform(xmin, xmax))
     cy = float(ymin - d) if side == "below" else float(ymax + d)
     out.insert(0, ("rot-rect-corner", Rectangle(L, W, np.array([cx, cy]), th), False))
+    # a U-shaped polygon around the END of a lanelet: the arms pass outside both boundaries, the connector lies beyond the
+    # end, the centroid of the polygon (its reference point) falls on the lanelet that the polygon itself may not touch
+    la = rng.choice(lanelets)
+    pr, pl = la.right_vertices[-1], la.left_vertices[-1]
+    if abs(float(pr[0]) - float(pl[0])) < 1e-9 and float(pl[1]) > float(pr[1]):   # a horizontal strip ending at x = xe
+        xe, yr, yl = float(pr[0]), float(pr[1]), float(pl[1])
+        g = rng.choice([1.5, 2.0])
+        u = np.array([[xe - 6.0, yr - g - 1.0], [xe + 2.0, yr - g - 1.0], [xe + 2.0, yl + g + 1.0], [xe - 6.0, yl + g + 1.0],
+                      [xe - 6.0, yl + g], [xe + 1.0, yl + g], [xe + 1.0, yr - g], [xe - 6.0, yr - g]])
+        out.insert(1, ("u-polygon-around-lanelet-end", Polygon(u), True))
     return out
